@@ -192,10 +192,7 @@ func (x *Exec) pickThread(en []*thread) *thread {
 	if x.threads.steps > x.schedBound() {
 		x.abort(Unwind, fmt.Sprintf("more than %d scheduling decisions", x.schedBound()))
 	}
-	ch := x.freshAux("sched", 8)
-	x.Assume(x.cx.Cmp("bvult", ch, mkConst(8, uint64(len(en)))))
-	k := x.Concretize(ch, "schedule")
-	return en[k]
+	return en[x.Choose(len(en), "schedule")]
 }
 
 func (x *Exec) schedBound() int {
@@ -219,7 +216,8 @@ func (x *Exec) schedPoint() {
 	}
 	// preemption bounding (stated in the harness): once the bound is used up the running thread
 	// keeps running at scheduling points where it could continue
-	if x.preemptBound > 0 && x.preemptions >= x.preemptBound {
+	// (a negative bound means no preemption at all; 0 means unbounded)
+	if x.preemptBound < 0 || (x.preemptBound > 0 && x.preemptions >= x.preemptBound) {
 		return
 	}
 	next := x.pickThread(en)
@@ -517,9 +515,7 @@ func (x *Exec) selectOp(fr *frame, instr *ssa.Select) Value {
 	// several ready cases: Go picks pseudo-randomly => nondeterministic choice
 	chosen := rd[0]
 	if len(rd) > 1 {
-		ch := x.freshAux("select", 8)
-		x.Assume(x.cx.Cmp("bvult", ch, mkConst(8, uint64(len(rd)))))
-		chosen = rd[x.Concretize(ch, "select choice")]
+		chosen = rd[x.Choose(len(rd), "select choice")]
 	}
 	k := cases[chosen]
 	if k.send {
